@@ -299,3 +299,246 @@ Theorem C10_categorical_init : forall ps lo hi raw r, ps <> [] -> acyclic ps -> 
   forall x, In x r -> (forall h, hi = Some h -> x <= h) /\ (forall l, lo = Some l -> (forall h, hi = Some h -> l <= h) -> l <= x).
 Proof. exact categorical_init_feasible. Qed.
 Print Assumptions C10_categorical_init.
+
+(* ================================================================================= *)
+(* A freshly built layer passes its own assert_constraints()                          *)
+(* ================================================================================= *)
+(* The assert models are those of property C12 (Model/Asserts.v: true = every
+   tf.Assert of the call passes); the kernels are the initialiser models above.
+   Proofs: Proofs/InitPassesAssert.v (through the C12 "complete" theorems).
+   eps is any non-negative tolerance (the layers default to 1e-6). *)
+From TFL Require Import Model.Asserts Proofs.Asserts Proofs.InitPassesAssert.
+
+(* ---------------- Lattice, linear initialiser ---------------- *)
+(* General form over the assert's own configuration record (all seven asserted
+   families; unimodalities are not asserted by the code but steer the
+   initialiser): ANY initialisation range inside the output bounds.  The last
+   three hypotheses before eps are the complement of known finding D6. *)
+Theorem C10_passes_assert_lattice_linear : forall (c : la_cfg) monos unis imin imax eps,
+  let sizes := a_sizes c in
+  let rank := length sizes in
+  let zm := zeros_if_none rank monos in let zu := zeros_if_none rank unis in
+  let em := lin_eff_monos sizes zm zu in
+  (* what verify_hyperparameters guarantees *)
+  la_ok c -> (forall s, In s sizes -> (2 <= s)%nat) -> (1 <= rank)%nat ->
+  length zm = rank -> length zu = rank -> (forall d, nz (nth d zm 0%Z) && nz (nth d zu 0%Z) = false) ->
+  (forall d, (d < length (a_monos c))%nat -> nth d (a_monos c) 0%Z = 1%Z -> nz (nth d zm 0%Z) = true) ->
+  (forall m cd dir, In (m, cd, dir) (a_edge c ++ a_trap c) -> (m < rank)%nat /\ (cd < rank)%nat) ->
+  (forall p q, In (p, q) (a_mdom c ++ a_rdom c ++ a_jmono c) -> (p < rank)%nat /\ (q < rank)%nat) ->
+  (forall p q, In (p, q) (a_mdom c ++ a_rdom c) -> nz (nth p em 0%Z) = true /\ nz (nth q em 0%Z) = true) ->
+  (* the initialisation range is non-empty and inside the output bounds *)
+  imin <= imax -> (forall lo, a_min c = Some lo -> lo <= imin) -> (forall hi, a_max c = Some hi -> imax <= hi) ->
+  (* outside known finding D6 *)
+  (forall m cd dir, In (m, cd, dir) (a_trap c) -> nz (nth cd em 0%Z) = false /\ nz (nth cd zu 0%Z) = false) ->
+  (forall p q, In (p, q) (a_mdom c) -> (nth p sizes 0 <= nth q sizes 0)%nat) ->
+  (forall p q, In (p, q) (a_jmono c) ->
+     (nz (nth p em 0%Z) = true \/ nz (nth p zu 0%Z) = false) /\ (nz (nth q em 0%Z) = true \/ nz (nth q zu 0%Z) = false)) ->
+  0 <= eps ->
+  assert_lattice c (linear_init sizes imin imax monos unis (a_units c)) eps = true.
+Proof. exact passes_assert_lattice_linear. Qed.
+Print Assumptions C10_passes_assert_lattice_linear.
+
+(* ---------------- Lattice, random monotonic initialiser ---------------- *)
+(* Every shuffle order, every sorted sample vector from a range inside the
+   output bounds.  The initialiser honours monotonicity (along EVERY dimension),
+   hence also joint monotonicities, and the bounds; nothing else may be
+   configured (complement of known finding D24). *)
+Theorem C10_passes_assert_lattice_random_monotonic : forall (c : la_cfg) order samples imin imax eps,
+  let sizes := a_sizes c in
+  let rank := length sizes in
+  la_ok c ->
+  (forall p q, In (p, q) (a_jmono c) -> (p < rank)%nat /\ (q < rank)%nat) ->
+  (* the oracles: np.random.shuffle leaves each level in SOME order, the samples are sorted, one per vertex, in range *)
+  Forall2 (@Permutation idx) order (levels sizes) ->
+  (forall a b, (a <= b)%nat -> (b < length samples)%nat -> nth a samples 0 <= nth b samples 0) ->
+  length samples = length (concat order) ->
+  (forall x, In x samples -> imin <= x /\ x <= imax) ->
+  (* the initialisation range is inside the output bounds *)
+  (forall lo, a_min c = Some lo -> lo <= imin) -> (forall hi, a_max c = Some hi -> imax <= hi) ->
+  (* outside known finding D24: nothing but monotonicity, joint monotonicity and bounds is configured *)
+  a_edge c = [] -> a_trap c = [] -> a_mdom c = [] -> a_rdom c = [] ->
+  0 <= eps ->
+  assert_lattice c (random_mono_init sizes (a_units c) order samples) eps = true.
+Proof. exact passes_assert_lattice_random_monotonic. Qed.
+Print Assumptions C10_passes_assert_lattice_random_monotonic.
+
+(* ---------------- Lattice, the layer ---------------- *)
+(* The kernel the layer builds: create_kernel_initializer (initializer id, merge
+   of joint unimodalities into the per-dimension unimodalities [zu] - which is
+   where known finding D63 lives: the guard is stated on the MERGED list -, default
+   or user-given init range) followed by the selected initialiser.  The first
+   hypothesis excludes the Keras fall-back (known finding D25: id
+   'random_uniform_or_linear_initializer' with one joint unimodality over all
+   features), the [match] is the complement of D6 / D24. *)
+Theorem C10_passes_assert_lattice : forall (c : la_cfg) id monos unis juni override order samples W eps,
+  let sizes := a_sizes c in
+  let rank := length sizes in
+  let zm := zeros_if_none rank monos in
+  let zu := merge_unimodalities rank unis juni in
+  let em := lin_eff_monos sizes zm zu in
+  let ch := create_kernel_initializer id sizes monos (a_min c) (a_max c) unis juni override in
+  (* the fresh kernel is the one a library initialiser produced (excludes the Keras fall-back, D25) *)
+  lattice_init_kernel ch sizes (a_units c) order samples = Some W ->
+  (* what verify_hyperparameters guarantees *)
+  la_ok c -> (forall s, In s sizes -> (2 <= s)%nat) -> (1 <= rank)%nat -> length zm = rank ->
+  (forall d, nz (nth d zm 0%Z) && nz (nth d zu 0%Z) = false) ->
+  a_monos c = monos_list monos ->
+  (forall m cd dir, In (m, cd, dir) (a_edge c ++ a_trap c) -> (m < rank)%nat /\ (cd < rank)%nat) ->
+  (forall p q, In (p, q) (a_mdom c ++ a_rdom c ++ a_jmono c) -> (p < rank)%nat /\ (q < rank)%nat) ->
+  (forall p q, In (p, q) (a_mdom c ++ a_rdom c) -> nth p (a_monos c) 0%Z = 1%Z /\ nth q (a_monos c) 0%Z = 1%Z) ->
+  (forall a b, a_min c = Some a -> a_max c = Some b -> a <= b) ->
+  (* a user-given init range is non-empty and inside the output bounds *)
+  (forall p, override = Some p -> fst p <= snd p /\
+     (forall lo, a_min c = Some lo -> lo <= fst p) /\ (forall hi, a_max c = Some hi -> snd p <= hi)) ->
+  match ch with
+  | UseLinear _ _ _ _ =>
+      (* outside known finding D6 *)
+      (forall m cd dir, In (m, cd, dir) (a_trap c) -> nz (nth cd em 0%Z) = false /\ nz (nth cd zu 0%Z) = false) /\
+      (forall p q, In (p, q) (a_mdom c) -> (nth p sizes 0 <= nth q sizes 0)%nat) /\
+      (forall p q, In (p, q) (a_jmono c) ->
+         (nz (nth p em 0%Z) = true \/ nz (nth p zu 0%Z) = false) /\ (nz (nth q em 0%Z) = true \/ nz (nth q zu 0%Z) = false))
+  | UseRandomMono imin imax =>
+      (* outside known finding D24 *)
+      (a_edge c = [] /\ a_trap c = [] /\ a_mdom c = [] /\ a_rdom c = []) /\
+      (* the random oracles *)
+      Forall2 (@Permutation idx) order (levels sizes) /\
+      (forall a b, (a <= b)%nat -> (b < length samples)%nat -> nth a samples 0 <= nth b samples 0) /\
+      length samples = length (concat order) /\
+      (forall x, In x samples -> imin <= x /\ x <= imax)
+  | UseKeras => True
+  end ->
+  0 <= eps ->
+  assert_lattice c W eps = true.
+Proof. exact passes_assert_lattice_layer. Qed.
+Print Assumptions C10_passes_assert_lattice.
+
+(* ---------------- Lattice, on the configuration record of C01 / C12 (la_of c) ---------------- *)
+(* monotonicities, Edgeworth and trapezoid trusts, bounds; default init range *)
+Theorem C10_passes_assert_lattice_linear_trusts : forall (c : lat_cfg) unis eps,
+  let rank := length (l_sizes c) in
+  let zu := zeros_if_none rank unis in
+  let imin := fst (default_init_params (l_min c) (l_max c)) in
+  let imax := snd (default_init_params (l_min c) (l_max c)) in
+  cfg_valid c -> l_sizes c <> [] ->
+  length zu = rank -> (forall d, nz (nth d (l_monos c) 0%Z) && nz (nth d zu 0%Z) = false) ->
+  (* outside D6: the conditional feature of a trapezoid trust is neither monotone nor unimodal *)
+  (forall m cd dir, In (m, cd, dir) (l_trap c) -> nth cd (l_monos c) 0%Z = 0%Z /\ nth cd zu 0%Z = 0%Z) ->
+  0 <= eps ->
+  assert_lattice (la_of c) (linear_init (l_sizes c) imin imax (Some (l_monos c)) unis (l_units c)) eps = true.
+Proof. exact passes_assert_lattice_linear_cfg. Qed.
+Print Assumptions C10_passes_assert_lattice_linear_trusts.
+
+(* the kernels of C10_linear_init_feasible / C10_random_init_feasible *)
+Theorem C10_passes_assert_lattice_linear_mono_bounds : forall c eps, cfg_valid c -> mono_bounds_only c -> l_sizes c <> [] ->
+  let imin := fst (default_init_params (l_min c) (l_max c)) in
+  let imax := snd (default_init_params (l_min c) (l_max c)) in
+  0 <= eps ->
+  assert_lattice (la_of c) (linear_init (l_sizes c) imin imax (Some (l_monos c)) None (l_units c)) eps = true.
+Proof. exact passes_assert_lattice_linear_mono_bounds_cfg. Qed.
+Print Assumptions C10_passes_assert_lattice_linear_mono_bounds.
+
+Theorem C10_passes_assert_lattice_random_monotonic_mono_bounds : forall (c : lat_cfg) order samples eps,
+  let imin := fst (default_init_params (l_min c) (l_max c)) in
+  let imax := snd (default_init_params (l_min c) (l_max c)) in
+  cfg_valid c -> mono_bounds_only c ->
+  Forall2 (@Permutation idx) order (levels (l_sizes c)) ->
+  (forall a b, (a <= b)%nat -> (b < length samples)%nat -> nth a samples 0 <= nth b samples 0) ->
+  length samples = length (concat order) ->
+  (forall x, In x samples -> imin <= x /\ x <= imax) ->
+  0 <= eps ->
+  assert_lattice (la_of c) (random_mono_init (l_sizes c) (l_units c) order samples) eps = true.
+Proof. exact passes_assert_lattice_random_monotonic_cfg. Qed.
+Print Assumptions C10_passes_assert_lattice_random_monotonic_mono_bounds.
+
+(* The guards are needed: outside them the fresh kernel FAILS the layer's own
+   assert at the default eps = 1e-6 (known findings D6 a, b, c and D24, open). *)
+Theorem C10_refuted_passes_assert_lattice_outside_guards :
+  (* D6a: trapezoid trust whose conditional feature is monotone *)
+  assert_lattice (mkLA [2; 2]%nat 1 [1; 1]%Z [] [(0, 1, 1%Z)]%nat [] [] [] None None)
+                 (linear_init [2; 2]%nat 0 1 (Some [1; 1]%Z) None 1) (1#1000000) = false /\
+  (* D6b: monotonic dominance whose dominant dimension has more vertices *)
+  assert_lattice (mkLA [3; 2]%nat 1 [1; 1]%Z [] [] [(0, 1)]%nat [] [] None None)
+                 (linear_init [3; 2]%nat 0 1 (Some [1; 1]%Z) None 1) (1#1000000) = false /\
+  (* D6c: joint monotonicity touching a unimodal dimension *)
+  assert_lattice (mkLA [4; 3]%nat 1 [1; 0]%Z [] [] [] [] [(0, 1)]%nat None None)
+                 (linear_init [4; 3]%nat 0 1 (Some [1; 0]%Z) (Some [0; 1]%Z) 1) (1#1000000) = false /\
+  (* D24: random monotonic initialiser with a trapezoid trust *)
+  assert_lattice (mkLA [2; 2]%nat 1 [1; 0]%Z [] [(0, 1, 1%Z)]%nat [] [] [] None None)
+                 (random_mono_init [2; 2]%nat 1 (levels [2; 2]%nat) [0; 1#4; 1#2; 1]) (1#1000000) = false.
+Proof. exact fresh_lattice_fails_assert_outside_guards. Qed.
+Print Assumptions C10_refuted_passes_assert_lattice_outside_guards.
+
+(* ---------------- PWLCalibration ---------------- *)
+(* PWLCalibration.build does not touch the initializer's value: the kernel is
+   pwl_layer_init ('equal_heights' / 'equal_slopes', init range from
+   convert_all_constraints, one row less when is_cyclic).  The layer assert
+   covers the keypoint outputs (cumsum of the kernel, closing point when
+   cyclic): bounds, clamps (per unit), monotonicity; and the learned missing
+   output when impute_missing is set without missing_output_value. *)
+Theorem C10_passes_assert_pwl : forall kps units omin omax clamp_min clamp_max mono (is_cyclic slopes learned_missing : bool) eps,
+  let nw := (length kps - (if is_cyclic then 1 else 0))%nat in
+  (* what verify_hyperparameters guarantees (is_cyclic excludes monotonicity; with
+     'equal_slopes' the initialiser needs one keypoint per weight row, which rules out is_cyclic) *)
+  (2 <= nw)%nat ->
+  (slopes = true -> is_cyclic = false /\ forall l, In l (kp_lengths kps) -> 0 < l) ->
+  (forall a b, omin = Some a -> omax = Some b -> a <= b) ->
+  (mono = (-1)%Z \/ mono = 0%Z \/ mono = 1%Z) ->
+  (is_cyclic = true -> mono = 0%Z) ->
+  0 <= eps ->
+  assert_pwl_layer
+    (mkPL (mkPA units mono omin omax clamp_min clamp_max) is_cyclic
+          (if learned_missing then Some (pwl_missing_output_init units omin omax clamp_min clamp_max) else None))
+    (pwl_layer_init kps units omin omax clamp_min clamp_max mono is_cyclic slopes) eps = true.
+Proof. exact passes_assert_pwl. Qed.
+Print Assumptions C10_passes_assert_pwl.
+
+(* ---------------- CategoricalCalibration ---------------- *)
+(* after the build-time projection (cat_build_kernel: constraint(initializer
+   value) whenever a constraint object exists), for EVERY initializer value raw *)
+Theorem C10_passes_assert_categorical : forall ps lo hi units raw K eps,
+  cat_build_kernel ps lo hi units raw = Some K ->
+  (* what verify_hyperparameters guarantees: at least one bucket and one unit, pairs of existing
+     buckets without a cycle, output_min <= output_max *)
+  raw <> [] -> (1 <= units)%nat ->
+  acyclic ps -> (forall i j, In (i, j) ps -> (i < length raw)%nat /\ (j < length raw)%nat) ->
+  (forall l h, lo = Some l -> hi = Some h -> l <= h) ->
+  0 <= eps ->
+  assert_categorical (mkCatA units lo hi ps) K eps = true.
+Proof. exact passes_assert_categorical. Qed.
+Print Assumptions C10_passes_assert_categorical.
+
+(* ---------------- KroneckerFactoredLattice ---------------- *)
+(* fresh scale (scale_initializer) and fresh kernel (kfl_random_monotonic_initializer
+   fed with that scale; [samples u d t] = the raw uniform column of (unit, dim,
+   term)), every oracle inside the init range.  Default init range
+   (kfl default_init_params): *)
+Theorem C10_passes_assert_kfl : forall L units dims terms monos omin omax samples eps,
+  let Sc := kfl_scale_init units terms omin omax in
+  let imin := fst (kfl_default_init_params omin omax) in
+  let imax := snd (kfl_default_init_params omin omax) in
+  (1 <= L)%nat ->
+  (forall a b, omin = Some a -> omax = Some b -> a < b) ->
+  (forall u d t, (u < units)%nat -> (d < dims)%nat -> (t < terms)%nat ->
+     length (samples u d t) = L /\ forall s, In s (samples u d t) -> imin <= s /\ s <= imax) ->
+  0 <= eps ->
+  assert_kfl (mkKA L units dims terms monos omin omax) Sc (kfl_fresh_kernel monos Sc samples) eps = true.
+Proof. exact passes_assert_kfl. Qed.
+Print Assumptions C10_passes_assert_kfl.
+
+(* ... and any user-given init range (init_min / init_max) that stays inside [0, 1] when a bound is configured *)
+Theorem C10_passes_assert_kfl_init_range : forall L units dims terms monos omin omax samples imin imax eps,
+  let Sc := kfl_scale_init units terms omin omax in
+  (1 <= L)%nat ->
+  (forall a b, omin = Some a -> omax = Some b -> a < b) ->
+  (* the oracle: one raw column of L uniform samples from [imin, imax] per (unit, dimension, term) *)
+  (forall u d t, (u < units)%nat -> (d < dims)%nat -> (t < terms)%nat ->
+     length (samples u d t) = L /\ forall s, In s (samples u d t) -> imin <= s /\ s <= imax) ->
+  (* with a bound configured the init range is inside [0, 1] (the default is exactly [0, 1]) *)
+  (forall b, omin = Some b \/ omax = Some b -> 0 <= imin /\ imax <= 1) ->
+  0 <= eps ->
+  assert_kfl (mkKA L units dims terms monos omin omax) Sc (kfl_fresh_kernel monos Sc samples) eps = true.
+Proof. exact passes_assert_kfl_init_range. Qed.
+Print Assumptions C10_passes_assert_kfl_init_range.
+
+(* Linear: the layer has no library initialiser (kernel_initializer defaults to the
+   Keras 'random_uniform'); nothing to state for C10. *)
